@@ -2,6 +2,9 @@ package main
 
 import (
 	"fmt"
+	"go/token"
+	"go/types"
+	"sort"
 
 	"golang.org/x/tools/go/ssa"
 )
@@ -141,4 +144,86 @@ func runErrBeforeUse(p *Program, r *RuleResult) {
 	}
 	r.count("calls returning (…, error)", nCalls)
 	r.count("nil-sensitive uses", nUses)
+}
+
+// R-NIL-DEREF (C09, C11, C18): nothing is dereferenced where a dominating test has just
+// established that it is nil (the classic slip: using the looked-up object in the message
+// of the "not found" error).
+func init() {
+	register(&Rule{Name: "R-NIL-DEREF", Min: 5,
+		Doc: "in every first-party function: no field access, load or slice/array access through a pointer, and no method call on an interface value, at a point where the branch facts say that the value is nil; one obligation per package (the number of dereferences examined) plus one per offending dereference",
+		Run: runNilDeref})
+}
+
+func runNilDeref(p *Program, r *RuleResult) {
+	per := map[string]int{}
+	bad := map[string]int{}
+	for _, fn := range p.SrcFuncs {
+		if fn.Blocks == nil || !p.isFirstParty(fn) {
+			continue
+		}
+		pkg := "?"
+		root := fn
+		for root.Parent() != nil {
+			root = root.Parent()
+		}
+		if root.Pkg != nil {
+			pkg = root.Pkg.Pkg.Path()
+		}
+		view := p.View(fn)
+		ord := 0
+		for _, b := range view.Blocks() {
+			facts := view.FactsAt(b)
+			if len(facts) == 0 {
+				for _, in := range view.Instrs(b) {
+					switch in.(type) {
+					case *ssa.FieldAddr, *ssa.UnOp:
+						per[pkg]++
+					}
+				}
+				continue
+			}
+			isNil := func(v ssa.Value) bool { return facts[fact{v, factNil}] }
+			for _, in := range view.Instrs(b) {
+				var x ssa.Value
+				what := ""
+				switch t := in.(type) {
+				case *ssa.FieldAddr:
+					x, what = t.X, "field access"
+				case *ssa.UnOp:
+					if t.Op == token.MUL {
+						x, what = t.X, "load"
+					}
+				case *ssa.IndexAddr:
+					if _, isPtr := t.X.Type().Underlying().(*types.Pointer); isPtr {
+						x, what = t.X, "array access"
+					}
+				case ssa.CallInstruction:
+					if t.Common().IsInvoke() {
+						x, what = t.Common().Value, "method call on a nil interface"
+					}
+				}
+				if x == nil {
+					continue
+				}
+				per[pkg]++
+				if isNil(x) {
+					ord++
+					bad[pkg]++
+					r.add(fnName(fn), fmt.Sprintf("nil-dereference#%d", ord), Violated, p.instrPos(in),
+						fmt.Sprintf("%s through %s on the branch where it was just found to be nil: the process dies with a Go panic instead of reporting an error", what, displayKey(x)))
+				}
+			}
+		}
+	}
+	var pkgs []string
+	for k := range per {
+		pkgs = append(pkgs, k)
+	}
+	sort.Strings(pkgs)
+	for _, k := range pkgs {
+		if bad[k] == 0 {
+			r.add(k, "no-dereference-of-known-nil", Holds, "", fmt.Sprintf("%d dereferences examined", per[k]))
+		}
+	}
 }
